@@ -11,6 +11,12 @@ Pipeline level: `whatshap phase` on simulated data with depth above the cap; fro
 (chromosome, family): selected reads per sample are candidates of that sample, obey the per-sample cap
 max(1, k // len(family)) and are maximal, and the reads handed to the solver span no accessible position more
 than --internal-downsampling = k times in total (families of at most k members).
+
+Selection stage (Model/C07Pipe.lean): the `len(read) >= 2` filter, the real `select_reads` and `ReadSet.subset` in-process
+on read sets with short reads and several sources (candidates, order, selected in the model's outcome set, predicates incl.
+"preferred reads first"); whole-run scenarios of harness/gen/c03_pipe.py with caps 0 / negative / 23 / 24: share
+`max(1, k // len(family))` = `c07.share`, exact outcome membership for small candidate sets, span counts of the merged read
+set = `c07.merged`, no admissible fragment missing among the candidates.
 """
 import contextlib, io, json, os, shutil
 
@@ -25,7 +31,8 @@ MANIFEST = dict(
     text="Lean 4 theorems (all read sets, all k, all tie choices of an abstract priority queue) about a hand-written "
          "model of readselection/readselection_helper/_slice_read_selection/CovMonitor: subset, cap invariant, "
          "termination with proved fuel bounds, maximality of the repaired code (and a machine-checked witness that the "
-         "code with defect F9 is not maximal), per-family total cap. The model is tied to the working tree by requiring "
+         "code with defect F9 is not maximal), per-family total cap, and the selection stage of `whatshap phase` (candidate "
+         "filter, integer share, subset order, preferred reads first, merged family read set, table bound). The model is tied to the working tree by requiring "
          "the implementation's result to be one of the model's enumerated outcomes (proved to be exactly the outcomes of the "
          "verified function over all tie choices: allOutcomes_sound / allOutcomes_complete) on small inputs, and the property "
          "predicates are evaluated independently on the implementation's output for all sizes and on `whatshap phase` traces",
@@ -112,6 +119,14 @@ def oracle(reads, k, sel):
             out.append((KEY_MAXIMAL_PREF if f9 else "maximal",
                         f"read {i} left out although every variant it spans is spanned by at most {m} < {k} selected reads"))
             break
+    # preferred reads come first (Props.C07.preferred_first): a preferred read is left out only when k selected PREFERRED
+    # reads span one of its variants already
+    pcnt = {p: sum(1 for j in s if reads[j][2] and spans(reads[j], p)) for p in positions}
+    for i in range(n):
+        if reads[i][2] and i not in s and not any(spans(reads[i], p) and pcnt[p] >= k for p in positions):
+            out.append(("preferred-first", f"preferred read {i} left out although no variant it spans is spanned by {k} selected "
+                                           f"preferred reads"))
+            break
     return out
 
 
@@ -177,6 +192,7 @@ class Lib:
             if impl != "ValueError" and not short:
                 py = oracle(case["reads"], case["k"], impl)
                 lean = ans[0]
+                py = [x for x in py if x[0] != "preferred-first"]
                 pyflags = {"subset": not any(k == "subset" for k, _ in py), "cap": not any(k == "cap" for k, _ in py),
                            "maximal": not any(k in ("maximal", KEY_MAXIMAL_PREF) for k, _ in py)}
                 if pyflags["subset"] and lean != pyflags:
@@ -349,14 +365,239 @@ def run_pipeline_case(ctx, pc):
 
 
 # ------------------------------------------------------------------------------------------------
+# the selection stage of `whatshap phase` (candidate filter, select_reads, ReadSet.subset, per-sample share)
+# ------------------------------------------------------------------------------------------------
+
+def gen_stage_case(rng, small=True):
+    """a sample's read set as PhasedInputReader.read returns it: reads of several sources (source ids of phase-input
+    VCFs are the preferred ones), including reads with 0 / 1 variants that the filter of run_whatshap removes"""
+    base = G.small_case(rng, 8) if small else G.medium_case(rng)
+    n_src = rng.choice([1, 1, 2, 3])
+    pref_ids = sorted(rng.sample(range(n_src + 1), rng.choice([0, 0, 1, min(2, n_src)])))
+    reads = []
+    for pos, qual, _ in base["reads"]:
+        reads.append([rng.randrange(n_src + 1) if n_src > 1 else 0, list(pos), list(qual)])
+    universe = sorted({p for r in reads for p in r[1]}) or [7]
+    for _ in range(rng.choice([0, 0, 1, 2, 3])):
+        p = rng.choice(universe)
+        short = [rng.randrange(n_src + 1) if n_src > 1 else 0, [p], [rng.choice([0, 7, 30])]] if rng.random() < 0.85 else [0, [], []]
+        reads.insert(rng.randrange(len(reads) + 1), short)
+    return {"stage": {"reads": reads, "cap": rng.choice([1, 1, 2, 2, 3, 4, 7]), "pref_ids": pref_ids,
+                      "pref_none": rng.random() < 0.2}}
+
+
+def run_stage_impl(st):
+    """the statements of run_whatshap's member loop on a real ReadSet: the `len(read) >= 2` filter (that line is copied
+    from cli/phase.py, it is not callable), then the real `select_reads`"""
+    import logging
+    from whatshap.core import Read, ReadSet
+    from whatshap.cli.phase import select_reads
+    readset = ReadSet()
+    for i, (src, pos, qual) in enumerate(st["reads"]):
+        r = Read(f"r{i}", 50, src, 0)
+        for p, q in zip(pos, qual):
+            r.add_variant(p, 0, q)
+        readset.add(r)
+    keep = [i for i, read in enumerate(readset) if len(read) >= 2]
+    cands = readset.subset(keep)
+    ids = None if (st.get("pref_none") and not st["pref_ids"]) else set(st["pref_ids"])
+    logging.disable(logging.CRITICAL)
+    try:
+        sel = select_reads(cands, st["cap"], preferred_source_ids=ids)
+    finally:
+        logging.disable(logging.NOTSET)
+    cand_names = [r.name for r in cands]
+    return keep, [cand_names.index(r.name) for r in sel], [int(r.name[1:]) for r in sel]
+
+
+def do_stage(ctx, reqs_out, case, tag):
+    st = case["stage"]
+    keep, sel_idx, sel_orig = run_stage_impl(st)
+    ctx.evaluated()
+    reads = st["reads"]
+    want_keep = [i for i, r in enumerate(reads) if len(r[1]) >= 2]
+    if keep != want_keep:
+        ctx.fail(f"candidate filter kept {keep}, the reads with >= 2 variants are {want_keep}", case, key="stage-candidates")
+    if any(len(reads[i][1]) < 2 for i in sel_orig):
+        ctx.fail("a read covering fewer than two variants was handed on", case, key="stage-short-read-handed-on")
+    if sel_idx != sorted(sel_idx):
+        ctx.fail(f"selected reads are not in the order of the candidates: {sel_idx}", case, key="stage-order")
+    cand = [[reads[i][1], reads[i][2], 1 if reads[i][0] in st["pref_ids"] else 0] for i in want_keep]
+    for key, text in oracle(cand, st["cap"], sorted(sel_idx)):
+        ctx.fail(f"selection stage: {text}", case, key="stage-" + key)
+    n_c = len(cand)
+    ctx.dist("stage_kind", tag + ("+pref" if any(c[2] for c in cand) else "") + ("+short" if len(want_keep) < len(reads) else ""))
+    if 0 < len(sel_idx) < n_c:
+        ctx.nontrivial("stage:" + json.dumps(st, separators=(",", ":")))
+    enum = n_c <= 9
+    reqs_out.append(({"op": "c07.stage", "reads": reads, "cap": st["cap"], "pref_ids": st["pref_ids"], "enumerate": enum},
+                     case, (keep, sorted(sel_idx), enum)))
+
+
+def flush_stage(ctx, reqs_out):
+    if not reqs_out:
+        return
+    answers = ctx.model.ask_many([r for r, _, _ in reqs_out])
+    for (req, case, (keep, sel, enum)), ans in zip(reqs_out, answers):
+        if ans.get("candidates") != keep:
+            ctx.disagree("c07.stage(candidates)", case, keep, ans.get("candidates"))
+        elif enum:
+            outs = [o["sel"] for o in ans["outcomes"] if isinstance(o, dict)]
+            if sel not in outs:
+                ctx.disagree("c07.stage", case, sel, ans["outcomes"])
+    reqs_out.clear()
+
+
+def check_trace_model(ctx, rec, case, reqs_out, share_reqs):
+    """ties of one trace record to the stage model: share, candidates have >= 2 variants, order, exact outcome membership
+    for small candidate sets, span counts of the merged read set"""
+    fam, k, kps = rec["family"], rec["max_coverage"], rec["max_coverage_per_sample"]
+    share_reqs.append(({"op": "c07.share", "k": k, "m": len(fam)}, case, kps))
+    share_reqs.append(({"op": "c07.accepted", "k": k, "m": len(fam)}, case, True))
+    sels = []
+    for s in fam:
+        c = rec["candidates"][s]
+        if any(len(r["variants"]) < 2 for r in c["reads"]):
+            ctx.fail(f"sample {s}: a candidate read covers fewer than two variants", case, key="pipeline-short-candidate")
+        names = [(r["name"], r["source_id"]) for r in c["reads"]]
+        idx = [names.index((r["name"], r["source_id"])) for r in c["selected"]] if len(set(names)) == len(names) else None
+        if idx is not None and idx != sorted(idx):
+            ctx.fail(f"sample {s}: selected reads are not in candidate order", case, key="pipeline-order")
+        prefs = sorted(c["preferred_source_ids"] or [])
+        rs = [[r["source_id"], [v[0] for v in r["variants"]], [v[2] for v in r["variants"]]] for r in c["reads"]]
+        sels.append([[r["source_id"], [v[0] for v in r["variants"]], [v[2] for v in r["variants"]]] for r in c["selected"]])
+        if idx is not None and len(rs) <= 9 and rec.get("algorithm") == "whatshap":
+            ctx.dist("pipeline_exact_membership_checked", True)
+            reqs_out.append(({"op": "c07.stage", "reads": rs, "cap": kps, "pref_ids": prefs, "enumerate": True},
+                             {"trace_stage": {"reads": rs, "cap": kps, "pref_ids": prefs}, "from": case},
+                             (list(range(len(rs))), sorted(idx), True)))
+    acc = rec["accessible_positions"]
+    want = [sum(1 for sel in sels for r in sel if r[1][0] <= q <= r[1][-1]) for q in acc]
+    share_reqs.append(({"op": "c07.merged", "selected": sels, "positions": acc}, case, want))
+
+
+def flush_share(ctx, share_reqs):
+    if not share_reqs:
+        return
+    answers = ctx.model.ask_many([dict(r, op="c07.share") if r["op"] == "c07.accepted" else r for r, _, _ in share_reqs])
+    for (req, case, want), ans in zip(share_reqs, answers):
+        got = ans.get("cap") if req["op"] == "c07.share" else ans.get("accepted") if req["op"] == "c07.accepted" else ans
+        if got != want:
+            ctx.disagree(req["op"], case, want, ans)
+        ctx.validated()
+    share_reqs.clear()
+
+
+def run_pipe_scenario(ctx, case, reqs_out, share_reqs):
+    """a whole-run scenario of harness/gen/c03_pipe.py (several chromosomes / families / read structures / options) with
+    caps that include 0, negative values, 23 and the rejected 24"""
+    from harness.gen import sim, c03_pipe as P
+    d = os.path.join(ctx.workdir(), "pipe")
+    shutil.rmtree(d, ignore_errors=True)
+    try:
+        sc, paths, args, extra = P.build(case["pipe"], d)
+        k = case["pipe"]["params"]["cap"]
+        rc, so, se, trace = sim.whatshap(["phase", "-o", os.path.join(d, "out.vcf")] + args + [paths["vcf"], paths["bam"]] + extra,
+                                         ctx.overlay, trace=os.path.join(d, "trace.jsonl"))
+        ctx.evaluated()
+        ctx.dist("pipe_cap", k); ctx.dist("pipe_layout", case["pipe"]["params"]["layout"])
+        if k > 23:
+            if rc == 0 or "must not exceed 23" not in se:
+                ctx.fail(f"--internal-downsampling {k} was not rejected (rc {rc})", case, key="pipeline-cap-above-23-accepted")
+            share_reqs.append(({"op": "c07.accepted", "k": k, "m": 1}, case, False))
+            return
+        if rc != 0:
+            last = (se.strip().splitlines() or ["?"])[-1][:200]
+            if "duplicate read name" in se and case["pipe"]["params"]["dup_names"]:
+                ctx.observe("RuntimeError duplicate read name (two family members with a read of the same name)")
+            elif "Traceback" in se or rc < 0:
+                ctx.fail(f"whatshap phase crashed: {last}", case, key="pipeline-crash")
+            else:
+                ctx.observe("clean command-line error: " + last[:90])
+            return
+        disc = False
+        check_candidates_complete(ctx, case, sc, trace)
+        for rec in trace:
+            if rec.get("algorithm") != "whatshap":
+                continue
+            ctx.dist("pipeline_family_size", len(rec["family"]))
+            if rec["max_coverage"] != k:
+                ctx.fail(f"traced max_coverage {rec['max_coverage']} is not --internal-downsampling {k}", case, key="pipeline-cap-option")
+            if k >= 1:
+                disc |= check_trace_record(ctx, rec, case)
+            else:
+                # a cap of 0 or below: the per-sample share is 1; the family statement of the property needs k >= 1
+                if rec["max_coverage_per_sample"] != 1:
+                    ctx.fail(f"--internal-downsampling {k}: per-sample cap {rec['max_coverage_per_sample']}, expected 1", case,
+                             key="pipeline-per-sample-cap")
+            check_trace_model(ctx, rec, case, reqs_out, share_reqs)
+        if disc:
+            ctx.nontrivial("pipe:%d" % case["pipe"]["gen_seed"])
+    finally:
+        shutil.rmtree(d, ignore_errors=True)
+
+
+def check_candidates_complete(ctx, case, sc, trace):
+    """no admissible read is lost BEFORE the selection: a fragment of the sample that spans (with >= 6 bases on either
+    side) two SNV positions which occur in candidate reads of that sample (so they are phasable variants) must itself be a
+    candidate.  Independent of whatshap: fragments and their reference spans come from the generated BAM records."""
+    p = case["pipe"]["params"]
+    if p["ignore_rg"] or p["dup_names"] or p["phased_vcf_input"]:
+        return
+    for rec in trace:
+        chrom = rec["chromosome"]
+        cc = next(c for c in sc["contigs"] if c["contig"] == chrom)
+        snv = {v["pos"] for v in cc["variants"] if len(v["ref"]) == 1 and len(v["alt"]) == 1}
+        for s in rec["family"]:
+            cands = rec["candidates"][s]["reads"]
+            cand_names = {r["name"] for r in cands}
+            cand_pos = {v[0] for r in cands for v in r["variants"]} & snv
+            frags = {}
+            for r in cc["reads"]:
+                if r["sample"] != s:
+                    continue
+                end = r["start"] + sum(n for op, n in r["cigar"] if op in (0, 2))
+                frags.setdefault(r["name"], set()).update(q for q in cand_pos if r["start"] + 6 <= q < end - 6)
+            n2 = 0
+            for name, vs in frags.items():
+                if len(vs) >= 2 and name not in cand_names:
+                    ctx.fail(f"{chrom}, sample {s}: fragment {name} spans the phasable SNVs at {sorted(vs)[:4]} but is not among the "
+                             f"candidates of the selection", case, key="pipeline-candidate-missing")
+                    return
+                n2 += len(vs) == 2
+            ctx.dist("pipeline_fragments_with_exactly_two_variants", min(n2, 10))
+
+
+def gen_pipe_scenario(rng):
+    from harness.gen import c03_pipe as P
+    c = P.gen_case(rng)
+    p = c["params"]
+    p["cap"] = rng.choice([1, 2, 2, 3, 3, 4, 6, 0, -3, 23, 24])
+    p["merge_reads"] = False            # selection then works on merged reads the trace does not show as candidates
+    p["read_list"] = False
+    p["phased_vcf_input"] = rng.random() < 0.35      # pseudo reads of a phase-input VCF are the preferred reads
+    if p["cap"] >= 23:
+        p["n_variants"] = [6, 10]
+    return {"pipe": c}
+
+
+# ------------------------------------------------------------------------------------------------
 
 def run(ctx):
     rng = ctx.rng
     lib = Lib(ctx)
 
+    stage_reqs, share_reqs = [], []
+
     def one(case):
         if "pipeline" in case:
             run_pipeline_case(ctx, case["pipeline"])
+        elif "stage" in case:
+            do_stage(ctx, stage_reqs, case, "corpus"); flush_stage(ctx, stage_reqs)
+        elif "trace_stage" in case:
+            do_stage(ctx, stage_reqs, {"stage": dict(case["trace_stage"], pref_none=False)}, "trace"); flush_stage(ctx, stage_reqs)
+        elif "pipe" in case:
+            run_pipe_scenario(ctx, case, stage_reqs, share_reqs); flush_stage(ctx, stage_reqs); flush_share(ctx, share_reqs)
         else:
             c = case.get("lib", case)
             lib.check(c, len(c["reads"]) <= 9, "corpus")
@@ -411,7 +652,16 @@ def run(ctx):
                 if texts:
                     ctx.fails[i] = ("readselection: " + texts[0] + " (shrunk)", {"lib": small}, key)
 
+    for i in range((1500 if ctx.quick else 12000) * ctx.scale):
+        do_stage(ctx, stage_reqs, gen_stage_case(rng, small=(i % 4 != 3)), "stage")
+        if len(stage_reqs) >= 200:
+            flush_stage(ctx, stage_reqs)
+    flush_stage(ctx, stage_reqs)
+
     n_pipe = (24 if ctx.quick else 120) * ctx.scale
     for i in range(n_pipe):
         run_pipeline_case(ctx, pipeline_case(rng, i))
+    for i in range((16 if ctx.quick else 120) * ctx.scale):
+        run_pipe_scenario(ctx, gen_pipe_scenario(rng), stage_reqs, share_reqs)
+    flush_stage(ctx, stage_reqs); flush_share(ctx, share_reqs)
     shutil.rmtree(ctx.workdir(), ignore_errors=True)
